@@ -107,7 +107,7 @@ fn judge(world: &World<'_>, case: &Case, rep_excl: &std::cell::RefCell<std::coll
             let shape_serial0 = c == 0 && s >= 2 && (s as usize) < keep;
             if shape_half || shape_serial0 {
                 let key = if shape_half { KEY_HALF_SPACE } else { KEY_SERIAL0 };
-                if case.known.as_deref() != Some(key) {
+                if case.known.as_deref() != Some(key) && is_listed_known("C13", key) {
                     *rep_excl.borrow_mut().entry(key).or_default() += 1;
                     continue;
                 }
